@@ -117,13 +117,15 @@ pub fn for_property(prop: &str) -> Vec<Family> {
             f("suspend", "the suspension job is itself a suspended future operation: resume must restart the queue under every runner", g_suspend, Q / 8, T / 8),
         ],
         "C07" => vec![
-            f("handles", "future_desync/after handles awaited, polled out of order, .sync()-ed, detached, dropped", g_handles, Q / 2, T / 2),
+            f("handles", "future_desync/after handles awaited, polled out of order, .sync()-ed, detached, dropped", g_handles, Q * 3 / 8, T * 3 / 8),
+            f("nested-saturated", "every pool thread is inside a job that awaits a future of another, untouched object: the polling thread has to run that object's queue itself", gen_nested_saturated, Q / 8, T / 8),
             f("late-poll", "futures created early and polled late or never while other threads schedule", g_late, Q / 4, T / 4),
             f("mix", "all operation kinds, all pools", g_mix, Q / 8, T / 8),
             f("raw-queue", "the same operation kinds on bare job queues through the scheduler-level functions; the harness gives its queue handle up while work is queued, running or suspended (nothing waits for a bare queue: accepted work must still run)", g_raw, Q / 8, T / 8),
         ],
         "C08" => vec![
-            f("fsync", "future_sync handles polled, dropped at any point, awaited, nested across objects", g_fsync, Q / 2, T / 2),
+            f("fsync", "future_sync handles polled, dropped at any point, awaited, nested across objects", g_fsync, Q * 3 / 8, T * 3 / 8),
+            f("nested-saturated", "every pool thread is inside a job that awaits a future of another, untouched object: the polling thread has to run that object's queue itself", gen_nested_saturated, Q / 8, T / 8),
             f("mix", "all operation kinds, all pools", g_mix, Q / 4, T / 4),
             sw("fsync-drop-sweep", "the owner drops the future_sync future when the queue's runner is at each of its scheduling points on the way to, inside and past the slot", gen_fsync_drop_sweep, Q / 4, T / 4, 64),
         ],
